@@ -99,6 +99,9 @@ def sid_tables(spec):
             templates[b["name"] + "__" + lf["type"]] = base + extra + "/{%s:%s}" % (Lb, lf["ext"])
             if lf.get("node_type"):
                 templates[b["name"] + "__" + lf["node_type"]] = base + extra
+        for k in spec.get("explicit_levels", {}).get(b["name"], []):     # an intermediate level written out by hand
+            ks = [c for c, _, _ in b["chain"]]
+            templates[b["name"] + "__" + k] = "/".join(["{%s}" % P, "{%s:%s}" % (T, b["code"])] + ["{%s}" % c for c in ks[:ks.index(k) + 1]])
         state_type = b["name"] + "__" + b["chain"][-1][0]
         templates[state_type] = base
         to_x.append(state_type)
@@ -412,10 +415,18 @@ def op_third_path_config(s):
     return s
 
 
+def op_explicit_levels(s):
+    """Intermediate types that extrapolation would generate are also written out by hand (second chain level of each basetype)."""
+    s = copy.deepcopy(s)
+    s["explicit_levels"] = {b["name"]: [b["chain"][1][0]] for b in s["basetypes"] if len(b["chain"]) > 2}
+    return s
+
+
 OPERATORS = [("rename-keys", op_rename_keys), ("rename-basetypes", op_rename_basetypes), ("type-codes", op_type_codes),
              ("rename-leaf-key", op_rename_leaf_key), ("insert-level", op_insert_level), ("remove-level", op_remove_level),
              ("separator", op_separator), ("folders", op_folders), ("vocabularies", op_vocabularies), ("digit-patterns", op_digits),
-             ("third-basetype", op_third_basetype), ("third-path-config", op_third_path_config)]
+             ("third-basetype", op_third_basetype), ("third-path-config", op_third_path_config),
+             ("explicit-levels", op_explicit_levels)]
 
 
 def family(tier):
